@@ -97,20 +97,11 @@ fn any_world() -> World {
     let mut booked_mask = [0u32; 2];
     for (i, actor) in [A, B].into_iter().enumerate() {
         if kani::any() {
-            // arbitrary simple bookkeeping: head h, versions 1..=h known except one needed version
-            let h: u64 = kani::any();
-            kani::assume(h <= NV);
-            let mut bv = BookedVersions::new(actor);
-            if h > 0 {
-                bv.max = Some(CrsqlDbVersion(h));
-            }
-            let gap: u64 = kani::any();
-            kani::assume(gap <= h);
-            if gap >= 1 && gap < h {
-                bv.needed.insert(CrsqlDbVersion(gap)..=CrsqlDbVersion(gap));
-            }
-            booked_mask[i] = bits(1, h) & !(if gap >= 1 && gap < h { 1 << gap } else { 0 });
-            map.insert(actor, Booked(bv));
+            // arbitrary set of fully known versions
+            let known: u32 = kani::any();
+            kani::assume(known & !bits(1, NV) == 0);
+            booked_mask[i] = known;
+            map.insert(actor, Booked(BookedVersions { known }));
         }
     }
     World {
